@@ -95,5 +95,8 @@ def patch(rng, data: bytes, start: int, p: float = 0.7) -> bytes:
                 val = rng.randbytes(lf.length)
             out[a : a + lf.length] = val
         elif lf.tag == 0x0A and rng.random() < 0.3:
-            out[a : a + lf.length] = bytes(rng.choice(b"0123456789ABCDEFGHJKLMNPQRSTUVWXYZ_") for _ in range(lf.length))
+            text = bytearray(rng.choice(b"0123456789ABCDEFGHJKLMNPQRSTUVWXYZ_") for _ in range(lf.length))
+            if lf.length > 2 and rng.random() < 0.3:  # identification strings padded with blanks, as some meters send them
+                text[0 if rng.random() < 0.5 else -1] = 0x20
+            out[a : a + lf.length] = bytes(text)
     return bytes(out)
